@@ -202,6 +202,32 @@ func runC09(c *Ctx) {
 			}
 		}
 		c.Floor("C09-R2", "account-cache evictions", nEv, 1)
+		// ... and the cache is never replaced wholesale after construction: assigning a new map to ScopedKeyManager.acctInfo
+		// evicts EVERY account of the scope at once (also those whose issue is still waiting for its commit callback),
+		// whatever single account the caller meant to forget
+		nRepl := 0
+		for _, fn := range p.FuncsIn("waddrmgr") {
+			for _, b := range fn.Blocks {
+				for _, ins := range b.Instrs {
+					st, ok := ins.(*ssa.Store)
+					if !ok {
+						continue
+					}
+					fa, ok := st.Addr.(*ssa.FieldAddr)
+					if !ok {
+						continue
+					}
+					if tn, f := fieldAddrName(fa); tn != "ScopedKeyManager" || f != "acctInfo" {
+						continue
+					}
+					nRepl++
+					_, fresh := fa.X.(*ssa.Alloc) // the manager being constructed in this function
+					c.Check("C09-R2", "account-cache-map-assigned-only-at-construction:"+fnName(fn), st.Pos(), fresh,
+						fnName(fn)+" assigns a new map to the scoped manager's account cache outside its construction: every cached account of the scope is evicted at once, including one whose address issue still waits for its commit callback")
+				}
+			}
+		}
+		c.Floor("C09-R2", "assignments of the account cache map", nRepl, 1)
 	}
 	// the chosen mutex must not be released inside anything a transaction closure can reach
 	if best != "" {
@@ -222,6 +248,10 @@ func runC09(c *Ctx) {
 
 	runC09R2(c)
 	// every issuing entry point decides "this call succeeded" from walletdb.Update's result: it must be the commit's
+	// a dry-run import (itself an address-issuing call) never leaves its never-persisted account in the cache
+	c.Borrow(func(c2 *Ctx) { checkDryRun(c2, "C09-R2") }, "C09-R2", "C09-R2", func(k string) bool {
+		return strings.HasPrefix(k, "account-dry-run-always-invalidates-cache")
+	})
 	c.Borrow(runC11, "C11-R1", "C09-R2", func(k string) bool {
 		return strings.HasPrefix(k, "Update-success-returns-Commit-result") || strings.HasPrefix(k, "Update-returns-function-error")
 	})
